@@ -52,7 +52,7 @@ pub fn run(ctx: &mut Ctx, which: &str) {
             }
             for v in r.viols {
                 if v.kind == "machinery" {
-                    ctx.machinery_errors.push(v.detail.clone());
+                    ctx.machinery_errors.push(format!("{} [{} #{} {}]", v.detail, v.family, v.index, v.sig));
                 } else {
                     ctx.violation(v);
                 }
